@@ -3,6 +3,20 @@ class HasSqrt (K : Type) where
   sqrt : K → K
 instance : HasSqrt Float := ⟨Float.sqrt⟩
 
+/-- the trigonometric operations the code uses, in the units it uses them in:
+`atan2deg y x = rad2deg(arctan2(y, x))`, `cosdeg t = cos(deg2rad(t))`, `sindeg t = sin(deg2rad(t))` -/
+class HasTrig (K : Type) where
+  atan2deg : K → K → K
+  cosdeg : K → K
+  sindeg : K → K
+
+def floatPi : Float := 3.141592653589793
+instance : HasTrig Float where
+  atan2deg y x := Float.atan2 y x * 180.0 / floatPi
+  cosdeg t := Float.cos (t * floatPi / 180.0)
+  sindeg t := Float.sin (t * floatPi / 180.0)
+
+
 /-- matrices are *data* (vectors of rows), never closures: a closure-valued state makes the
 compiled/interpreted evaluation exponential in the number of elimination steps -/
 abbrev Mat (n : Nat) (K : Type) := Vector (Vector K n) n
